@@ -8,6 +8,7 @@ method class, any entity; every Rust panic site on the path (checked arithmetic,
 none is reachable.
 -/
 import HttpServeModel.Lemmas.ServeLemmas
+import HttpServeModel.Lemmas.ServeCalls
 
 namespace HS
 
@@ -45,5 +46,17 @@ theorem C13_drain_never_panics (q : Req) (e : Ent) (now : Nat) (r : Resp) (hlen 
       ∀ o ∈ outs (b.run n), o ≠ .panic ∧ o ≠ .diverge := by
   obtain ⟨b, hb, hinv⟩ := serve_body_inv q e now r hlen h scripts
   exact ⟨b, hb, run_no_panic n b hinv⟩
+
+/-- Whatever the request, `serve` consults the entity in one fixed order — nothing (405);
+validators only (400/412/304); or validators, length, then at most one `get_range(a..b)` with
+`a ≤ b`, then at most one `add_headers` — so no input makes it fetch twice or fetch before the
+preconditions and the length are known. -/
+theorem C13_entity_call_order (q : Req) (e : Ent) (now : Nat) (r : Resp)
+    (h : serve q e now = .ok r) :
+    r.calls = [] ∨ r.calls = [.lastModified, .etag] ∨
+    ∃ tail, r.calls = [.lastModified, .etag, .len] ++ tail ∧
+      (tail = [] ∨ tail = [.addHeaders] ∨
+       ∃ a b, a < b + 1 ∧ (tail = [.getRange a b] ∨ tail = [.getRange a b, .addHeaders])) :=
+  calls_shape q e now r h
 
 end HS
